@@ -720,6 +720,11 @@ def check_vps(ctx, run):
             if b in want:
                 run.holds("RF-BITS", ikey, "bit %d of %s <- buffer[%d].%d, where %s stores bit %d of %s"
                           % (j, dpath, b[1] and int(b[1][7:-1]), b[2], enc_name, j, fld), "%s:%d" % (dec.file, dec.line))
+            elif b is None and getattr(dec, "inlined", None):
+                # the value went through a helper that was split off after the tables were confirmed (several
+                # returns merge in a result temporary): provenance lost, nothing contradicts the encoder
+                run.undecided("RF-BITS", ikey, "bit %d of %s: provenance lost in code inlined from %s(); not decided"
+                              % (j, dpath, ", ".join(dec.inlined)), "%s:%d" % (dec.file, dec.line))
             else:
                 run.violation("RF-BITS", ikey, "%s takes bit %d of %s from %s but %s stores that field bit at %s: the codecs "
                               "are not inverses" % (dec_name, j, dpath, _fmt(b), enc_name,
